@@ -163,3 +163,33 @@ func withFlags(add, remove slog.Flags, f func()) {
 }
 
 func osGetenv(k string) string { return os.Getenv(k) }
+
+// setFlagsVia puts the package flags to fl through one of several API paths
+// that must be equivalent: 0 = SetFlags; 1 = SetFlags followed by a
+// SaveFlagsAndMod scope (which flips some bits and is closed again);
+// 2 = ResetFlags + AddFlags + RemoveFlags; 3 = bit-by-bit AddFlags/RemoveFlags.
+func setFlagsVia(fl slog.Flags, variant int) {
+	switch variant % 4 {
+	case 0:
+		slog.SetFlags(fl)
+	case 1:
+		slog.SetFlags(fl)
+		all := slog.Ldatetimeflags | slog.LlocalTime | slog.LattrsR | slog.Lcaller | slog.Lprivacypath | slog.Lprivacypathregexp | slog.LnoInterrupt | slog.Linterruptalways
+		restore := slog.SaveFlagsAndMod(all&^fl, all&fl)
+		restore()
+	case 2:
+		slog.ResetFlags()
+		slog.AddFlags(fl &^ slog.LstdFlags)
+		slog.RemoveFlags(slog.LstdFlags &^ fl)
+	case 3:
+		slog.SetFlags(0)
+		for b := slog.Flags(1); b != 0 && b <= slog.Linterruptalways; b <<= 1 {
+			if fl&b != 0 {
+				slog.AddFlags(b)
+			}
+		}
+	}
+	if slog.GetFlags() != fl {
+		panic(fmt.Sprintf("setFlagsVia(%d): flags are %d, want %d", variant, int64(slog.GetFlags()), int64(fl)))
+	}
+}
